@@ -299,6 +299,12 @@ def find_buildsystem_files_list(src_dir: str) -> T.List[str]:
 def list_buildsystem_files(coredata: cdata.CoreData, builddata: build.Build, backend: backends.Backend) -> T.List[str]:
     src_dir = builddata.environment.get_source_dir()
     filelist = [PurePath(src_dir, x).as_posix() for x in builddata.def_files]
+    # Machine files are read as well, and build.ninja regenerates when they
+    # change (see Backend.get_regen_filelist)
+    for f in coredata.cross_files + coredata.config_files:
+        f = PurePath(f).as_posix()
+        if f not in filelist:
+            filelist.append(f)
     return filelist
 
 def list_compilers(coredata: cdata.CoreData, builddata: build.Build, backend: backends.Backend) -> T.Dict[str, T.Dict[str, T.Dict[str, str]]]:
